@@ -328,6 +328,7 @@ class Models:
         A(r'^core::str::<impl str>::strip_prefix::<char>$', self.m_strip_prefix)
         A(r'^core::str::<impl str>::bytes$', lambda ex, c, a: Iter('bytes', to_slice(ex, a[0]), 0))
         A(r'^<std::str::Bytes<\'_> as Iterator>::(all|any)::<', self.m_bytes_all_any)
+        A(r'^core::str::<impl str>::trim(_start|_end)?$', self.m_str_trim)
         A(r'^core::str::<impl str>::chars$', lambda ex, c, a: Iter('chars', to_slice(ex, a[0]), 0))
         A(r'^<&smallvec::SmallVec<.*> as IntoIterator>::into_iter$', lambda ex, c, a: Iter('slice', self.any_slice(ex, a[0]), 0))
         A(r'^<.* as IntoIterator>::into_iter$', lambda ex, c, a: a[0])
@@ -344,6 +345,8 @@ class Models:
         A(r'^Vec::<.*>::len$', lambda ex, c, a: usize(len(ex.deref(a[0]).items)))
         A(r'^<Vec<.*> as Deref>::deref$', lambda ex, c, a: Slice(list(ex.deref(a[0]).items), 0, len(ex.deref(a[0]).items), False))
         A(r'^core::slice::<impl \[.*\]>::iter$', lambda ex, c, a: Iter('slice', self.any_slice(ex, a[0]), 0))
+        A(r'^<(?:std|core)::slice::Iter<\'_, .*> as Iterator>::enumerate$', lambda ex, c, a: Iter('enumerate', a[0].slice, a[0].pos, dict(base=a[0].pos)))
+        A(r'^<(?:std::iter::|core::iter::)?(?:adapters::enumerate::)?Enumerate<.*> as Iterator>::(all|any|next|position|find)(::<.*)?$', self.m_enumerate_ops)
         A(r'^<(?:std|core)::slice::Iter<\'_, .*> as Iterator>::position::<', self.m_iter_position)
         A(r'^<(?:std|core)::slice::Iter<\'_, .*> as Iterator>::all::<', self.m_iter_all)
         A(r'^<(?:std|core)::slice::Iter<\'_, .*> as Iterator>::any::<', self.m_iter_any)
@@ -640,6 +643,33 @@ class Models:
             rty = 'Option' if (m and 'Option' in m.group(1)) else ('Result' if m and 'Result' in m.group(1) else 'ControlFlow')
         return Agg(rty, {'Option': 'Some', 'Result': 'Ok', 'ControlFlow': 'Continue'}[rty], [acc])
 
+    def m_str_trim(self, ex, c, a):
+        """str::trim / trim_start / trim_end: Unicode White_Space (the set char::is_whitespace uses)"""
+        sl = to_slice(ex, a[0])
+        ws = [(0x09, 0x0D), (0x20, 0x20), (0x85, 0x85), (0xA0, 0xA0), (0x1680, 0x1680), (0x2000, 0x200A), (0x2028, 0x2029), (0x202F, 0x202F), (0x205F, 0x205F), (0x3000, 0x3000)]
+
+        def is_wsp(ch):
+            return z3.Or(*[z3.And(z3.UGE(ch.e, lo), z3.ULE(ch.e, hi)) for lo, hi in ws])
+        start, end = 0, sl.len
+        which = c.rsplit('::', 1)[-1]
+        if which in ('trim', 'trim_start'):
+            while start < end:
+                ch, w = decode_utf8_at(ex, sl.buf, sl.off + start, sl.off + end)
+                if not ex.decide(is_wsp(ch)):
+                    break
+                start += w
+        if which in ('trim', 'trim_end'):
+            while end > start:
+                # step back to the start of the last scalar
+                k = end - 1
+                while k > start and ex.decide(z3.And(z3.UGE(sl.buf[sl.off + k], 0x80), z3.ULT(sl.buf[sl.off + k], 0xC0))):
+                    k -= 1
+                ch, w = decode_utf8_at(ex, sl.buf, sl.off + k, sl.off + end)
+                if not ex.decide(is_wsp(ch)):
+                    break
+                end = k
+        return sl.sub(start, end)
+
     def m_split_next(self, ex, c, a):
         it = ex.deref(a[0])
         if it.extra['done']:
@@ -818,6 +848,37 @@ class Models:
         if o.variant == 'Equal':
             return ok(usize(base))
         return err(usize(base + (1 if o.variant == 'Less' else 0)))
+
+    def m_enumerate_ops(self, ex, c, a):
+        it = ex.deref(a[0]) if isinstance(a[0], Ref) else a[0]
+        sl = it.slice
+        op = re.search(r'::(all|any|next|position|find)(?:::<|$)', c).group(1)
+        base = it.extra['base']
+
+        def item(i):
+            return Agg('tuple', None, [usize(i - base), ElemRef(sl, i)])
+        if op == 'next':
+            if it.pos >= sl.len:
+                return NONE()
+            i = it.pos
+            it.pos += 1
+            return some(item(i))
+        k = 0
+        while it.pos < sl.len:
+            i = it.pos
+            it.pos += 1
+            arg = item(i)
+            r = ex.decide(ex.call_closure(a[1], [Ref(Cell(arg))] if op == 'find' else [arg]))
+            if op == 'all' and not r:
+                return False
+            if op == 'any' and r:
+                return True
+            if op == 'position' and r:
+                return some(usize(k))
+            if op == 'find' and r:
+                return some(arg)
+            k += 1
+        return {'all': True, 'any': False}.get(op, NONE())
 
     def m_iter_find(self, ex, c, a):
         it = ex.deref(a[0])
